@@ -18,6 +18,20 @@ import torch
 from simkit import core, minimise, repo, runner
 
 
+def _kwargs_wrapper(X, **kw):
+	"""A user's reference function that forwards everything (the seed arrives
+	through **kwargs, not through a parameter named random_state)."""
+	from tangermeme.ersatz import dinucleotide_shuffle
+	return dinucleotide_shuffle(X, **kw)
+
+
+def _refgen(name):
+	if name == "kwargs_wrapper":
+		return _kwargs_wrapper
+	from tangermeme import ersatz
+	return getattr(ersatz, name)
+
+
 class _Conditioning(object):
 	"""Observes (on a private clone of the model) whether a forward pass sits on
 	one of the discontinuities of the DeepLIFT rules."""
@@ -129,7 +143,8 @@ class C06(runner.Check):
 		ns = r.randint(1, 6) if n <= 6 else r.randint(1, 3)
 		# the reference *function*: the default dinucleotide shuffle, or the plain
 		# shuffle (any callable with that signature is legal)
-		world_refgen = r.wchoice(["dinucleotide_shuffle", "shuffle"], [4, 1])
+		world_refgen = r.wchoice(["dinucleotide_shuffle", "shuffle", "kwargs_wrapper"],
+			[4, 1, 1])
 		world = {"n": n, "n_shuffles": ns, "refgen": world_refgen, "xseed": r.subseed(),
 			"random_state": r.randint(0, 1000), "target": r.randint(0,
 			mspec["n_targets"] - 1)}
@@ -158,7 +173,7 @@ class C06(runner.Check):
 					max(1, total - 1), 32, r.randint(1, total + 1), r.randint(1, total + 1)]
 				op.update(idx=idx, batch_size=r.choice(cands),
 					mode=r.wchoice(["processed", "hypothetical", "raw"], [3, 2, 2]),
-					refs=r.wchoice(["gen", "tensor", "tensor_tiny"], [6, 2, 1]),
+					refs=r.wchoice(["gen", "tensor", "tensor_tiny", "tensor_mixed"], [6, 2, 1, 1]),
 					tiny_eps=r.choice([2e-6, 5e-6, 1e-5, 1e-4]),
 					return_references=r.chance(0.4), thread=r.chance(0.12),
 					seed_type=r.wchoice(["int", "numpy.int64", "numpy.int32"], [6, 1, 1]),
@@ -205,8 +220,7 @@ class C06(runner.Check):
 		elif refgen is not None:
 			kw["references"] = refgen
 		elif world.get("refgen", "dinucleotide_shuffle") != "dinucleotide_shuffle":
-			from tangermeme import ersatz
-			kw["references"] = getattr(ersatz, world["refgen"])
+			kw["references"] = _refgen(world["refgen"])
 		if seed_type != "int":
 			kw["random_state"] = getattr(numpy, seed_type.split(".")[1])(
 				world["random_state"])
@@ -352,8 +366,8 @@ class C06(runner.Check):
 					try:
 						self._dls(shared, X[idx], None if args is None else tuple(a[idx]
 							for a in args), op["mode"], world, batch_size=op["batch_size"],
-							refgen=mo._wrap("refgen", getattr(__import__("tangermeme.ersatz",
-								fromlist=["x"]), world.get("refgen", "dinucleotide_shuffle"))))
+							refgen=mo._wrap("refgen", _refgen(world.get("refgen",
+								"dinucleotide_shuffle"))))
 					except BaseException as e:
 						if isinstance(e, (SystemExit, GeneratorExit)):
 							raise
@@ -386,6 +400,29 @@ class C06(runner.Check):
 						else:
 							refs = torch.stack([canon_refs[i] for i in idx])
 							op_ret_refs = False
+					elif op["refs"] == "tensor_mixed":
+						# an explicit reference tensor in which some examples use an
+						# all-zero baseline and the others their shuffles
+						mixed, want_rows, bad_world = {}, {}, None
+						for i in sorted(set(idx)):
+							mixed[i] = torch.zeros_like(canon_refs[i]) if i % 2 == 0 else \
+								canon_refs[i].clone()
+							c2 = _Conditioning()
+							m_i = mw.clone_model(pristine)
+							c2.observe(m_i)
+							a_i = None if args is None else tuple(a[i:i + 1] for a in args)
+							try:
+								want_rows[i] = self._dls(m_i, X[i:i + 1], a_i, op["mode"], world,
+									refs=mixed[i][None], batch_size=ns)[0]
+							except Exception:
+								bad_world = "canonical run raises"
+							if c2.reason:
+								bad_world = c2.reason
+						if bad_world:
+							out.bump("op.skipped_ill_conditioned")
+							continue
+						refs = torch.stack([mixed[i] for i in idx])
+						out.bump("probe.mixed_zero_baselines")
 					elif op["refs"] == "tensor_tiny":
 						# references a hair away from the input: |delta_in| of the rescale
 						# rule lands in the 1e-6 .. 1e-4 range, close to its switch
@@ -440,7 +477,7 @@ class C06(runner.Check):
 									from tangermeme import ersatz as _ers
 									yb, ya = marginalize(shared, Xs, op["motif"], func=deep_lift_shap,
 										args=a_s, additional_func_kwargs=dict(
-										references=getattr(_ers, world.get("refgen",
+										references=_refgen(world.get("refgen",
 											"dinucleotide_shuffle")),
 										target=world["target"], batch_size=bs, n_shuffles=ns,
 										hypothetical=(op["mode"] == "hypothetical"), device="cpu",
